@@ -26,7 +26,7 @@ MECHANISMS = ["jaxley.integrate:integrate", "jaxley.modules.base:Module.get_all_
               "jaxley.modules.base:Module.data_stimulate"]
 MECHANISMS_REQUIRED = ["jaxley.integrate:integrate", "jaxley.modules.base:Module.get_all_parameters", "jaxley.utils.cell_utils:compute_axial_conductances"]
 REQUIRED = {"quick": {"grad_fd": 80},
-            "thorough": {"grad_fd": 400}}
+            "thorough": {"grad_fd": 1318}}
 WALL_BUDGET = {"quick": 1500, "thorough": 5 * 3600}
 NODE_KEYS = ["radius", "length", "axial_resistivity", "capacitance", "v", "HH_gNa", "HH_gK", "HH_eK", "HH_gLeak", "HH_m", "HH_eNa"]
 
